@@ -290,8 +290,9 @@ package builder
 //@   ensures uploaded-directory-is-part-of-the-tree: r1 == nil ==> r0 in s.directoriesSeen
 //@   ensures tree-only-grows: len(s.directories) >= old(len(s.directories))
 //@ func (*uploadOutputsState).uploadOutputDirectoryEntered
-//@   props C10
+//@   props C10 C09
 //@   at call uploadDirectory#1 assert every-tree-starts-empty: len(dState.directories) == 0 && len(dState.directoriesSeen) == 0
+//@   at call uploadDirectory#1 assert failures-of-the-walk-are-recorded-where-UploadOutputs-reads-them: dState.uploadOutputsState == s
 //@   loop 1 exhaustive
 //@   loop 1 invariant the-last-collected-directory-is-written-first-as-the-root-and-all-others-as-children:
 //@             i >= 0 && i <= len(directories) && tag == ite(i == len(directories), 10, 18) && storefailed(nil) == 0
@@ -364,3 +365,11 @@ package builder
 //@   at call NewContextWithTimeout#1 assert the-command-runs-under-the-timeout-of-the-action: arg2 == uf("asduration", action.Timeout)
 //@   ensures outputs-are-collected-whenever-the-command-was-started: execsteps(1) == 1 ==> execsteps(2) == 1
 //@   ensures the-build-directory-is-closed-on-every-path: buildDirectory != nil ==> dirclosed(buildDirectory) >= 1
+
+// saveError keeps the first failure, whatever its kind: once anything failed,
+// UploadOutputs reports a failure, so that an incomplete result is never
+// reported (and cached) as a success (C09, C10).
+//@ func (*uploadOutputsState).saveError
+//@   props C09 C10
+//@   ensures a-recorded-failure-is-never-dropped: err != nil ==> s.firstError != nil
+//@   ensures the-first-failure-is-kept: old(s.firstError) != nil ==> s.firstError == old(s.firstError)
